@@ -40,6 +40,23 @@ pub enum Step {
     /// artifact directory before it (someone else edited the directory between sessions).
     Restart { garbage: Vec<Garbage> },
     Gc,
+    /// somebody else damages the artifact directory while the session lives (`rm -rf`, a
+    /// cleaning script): a source of *real* I/O errors in the next write phase. From here
+    /// until the next failed write phase or restart C18 demands nothing ("as long as nothing
+    /// else edited the directory"); C19 does once a write has failed.
+    Tamper(Tamper),
+}
+
+#[derive(Serialize, Deserialize, Clone, Debug, PartialEq, Eq, Hash)]
+pub enum Tamper {
+    /// remove the whole artifact directory
+    RemoveAll,
+    /// remove the n-th entity directory (sorted)
+    RemoveEntityDir(u8),
+    /// remove the n-th selectable directory (sorted)
+    RemoveSelectableDir(u8),
+    /// remove the n-th file (sorted)
+    RemoveFile(u8),
 }
 
 #[derive(Serialize, Deserialize, Clone, Debug, PartialEq, Eq, Hash)]
@@ -98,6 +115,38 @@ fn write_garbage(w: &World, g: &Garbage) {
     }
 }
 
+/// Applies the damage; false if there was nothing to damage.
+fn tamper(w: &World, t: &Tamper) -> bool {
+    let dir = w.artifact_dir();
+    let snap = world::snapshot(&dir);
+    match t {
+        Tamper::RemoveAll => dir.is_dir() && std::fs::remove_dir_all(&dir).is_ok(),
+        Tamper::RemoveFile(n) => {
+            let files: Vec<&String> = snap.files.keys().collect();
+            if files.is_empty() {
+                return false;
+            }
+            std::fs::remove_file(dir.join(files[*n as usize % files.len()])).is_ok()
+        }
+        Tamper::RemoveEntityDir(n) | Tamper::RemoveSelectableDir(n) => {
+            let depth = if matches!(t, Tamper::RemoveEntityDir(_)) { 1 } else { 2 };
+            let dirs: std::collections::BTreeSet<String> = snap
+                .files
+                .keys()
+                .filter_map(|f| {
+                    let parts: Vec<&str> = f.split('/').collect();
+                    if parts.len() > depth { Some(parts[..depth].join("/")) } else { None }
+                })
+                .collect();
+            let dirs: Vec<String> = dirs.into_iter().collect();
+            if dirs.is_empty() {
+                return false;
+            }
+            std::fs::remove_dir_all(dir.join(&dirs[*n as usize % dirs.len()])).is_ok()
+        }
+    }
+}
+
 fn event_for(w: &World, op: &EdOp) -> Vec<SourceFileEvent> {
     match op {
         EdOp::Write(p, _) | EdOp::AtomicSave(p, _) => vec![(
@@ -143,6 +192,9 @@ pub fn run(case: &SessionCase, tag: u64) -> Outcome {
     let mut dirty = false;
     let mut ok_compiles_in_session = 0u32;
     let mut fault_since_session_start = false;
+    // somebody else damaged the artifact directory under a live session and no write phase
+    // has failed since (C18 is silent then; a failed write phase hands over to C19)
+    let mut tampered = false;
     let mut c: std::collections::BTreeMap<String, u64> = Default::default();
     let mut bump = |c: &mut std::collections::BTreeMap<String, u64>, k: &str| *c.entry(k.to_string()).or_insert(0) += 1;
 
@@ -166,11 +218,24 @@ pub fn run(case: &SessionCase, tag: u64) -> Outcome {
                 pending.clear();
                 ok_compiles_in_session = 0;
                 fault_since_session_start = false;
+                tampered = false;
                 for g in garbage {
                     write_garbage(&w, g);
                     bump(&mut c, "fault.prior_garbage_in_artifact_dir");
                 }
                 bump(&mut c, "fault.process_restart");
+            }
+            Step::Tamper(t) => {
+                if tamper(&w, t) {
+                    bump(&mut c, "fault.external_damage_to_artifact_dir");
+                    // between sessions this is just prior content; under a live session whose
+                    // last write phase succeeded it suspends C18
+                    if state.is_some() && !dirty {
+                        tampered = true;
+                    }
+                } else {
+                    bump(&mut c, "steps_skipped");
+                }
             }
             Step::Gc => {
                 if let Some(s) = state.as_mut() {
@@ -255,6 +320,7 @@ pub fn run(case: &SessionCase, tag: u64) -> Outcome {
                             pending.clear();
                             ok_compiles_in_session = 0;
                             dirty = true;
+                            tampered = false;
                             out.log.extend_from_slice(b"K");
                         } else {
                             world_cleanup(&w);
@@ -271,25 +337,46 @@ pub fn run(case: &SessionCase, tag: u64) -> Outcome {
                         };
                         out.log.extend_from_slice(&simcore::fnv1a(&artifacts.iter().flat_map(|(k, v)| k.bytes().chain(v.iter().copied())).collect::<Vec<u8>>()).to_le_bytes());
                         let tree = world::snapshot(&artifact_dir);
+                        let was_tampered = tampered;
+                        let real_io_error = tampered && srec.real_failures > 0;
+                        if real_io_error {
+                            bump(&mut c, "fault.real_io_error_after_external_damage");
+                            out.faults_fired += 1;
+                        }
                         if let Some(diff) = world::describe_diff(&tree, &artifacts) {
-                            let (property, kind) = if rec.fault_fired.is_some() {
-                                ("C19", "success-reported-although-a-write-failed")
+                            let verdict = if rec.fault_fired.is_some() {
+                                Some(("C19", "success-reported-although-a-write-failed"))
                             } else if dirty {
-                                ("C19", "not-repaired-after-interrupted-write")
+                                Some(("C19", "not-repaired-after-interrupted-write"))
+                            } else if real_io_error {
+                                // the operating system refused a write (the directory was damaged
+                                // by somebody else), the compile nevertheless reports success
+                                Some(("C19", "success-reported-although-a-write-failed"))
+                            } else if tampered {
+                                // C18 is conditional on nobody else editing the directory
+                                bump(&mut c, "compiles_not_judged_after_external_damage");
+                                None
                             } else {
-                                ("C18", "directory-differs-from-artifacts")
+                                Some(("C18", "directory-differs-from-artifacts"))
                             };
                             let how = match (&rec.fault_fired, sys_kind) {
                                 (Some(n), Some(_)) => format!(" [{n} at libc {}()]", srec.fired_what),
                                 (Some(n), None) => format!(" [{n}]"),
+                                _ if real_io_error => format!(" [{} libc call(s) refused by the operating system after the directory was damaged externally]", srec.real_failures),
                                 _ => String::new(),
                             };
-                            out.violations.push(Violation { property, kind, detail: format!("after a successful compile{how}: {diff}"), step: idx });
-                        } else if dirty {
-                            out.recovered_after_fault += 1;
+                            if let Some((property, kind)) = verdict {
+                                out.violations.push(Violation { property, kind, detail: format!("after a successful compile{how}: {diff}"), step: idx });
+                            }
+                        } else {
+                            if dirty {
+                                out.recovered_after_fault += 1;
+                            }
+                            // the directory is whole again
+                            tampered = false;
                         }
                         // later compiles of a session write only what changed
-                        if ok_compiles_in_session >= 1 && !fault_since_session_start {
+                        if ok_compiles_in_session >= 1 && !fault_since_session_start && !was_tampered {
                             for p in &rec.written {
                                 if before.files.get(p) == artifacts.get(p) && before.files.contains_key(p) {
                                     out.violations.push(Violation { property: "C18", kind: "rewrote-unchanged-artifact", detail: format!("{p} was written although its content did not change"), step: idx });
@@ -306,11 +393,21 @@ pub fn run(case: &SessionCase, tag: u64) -> Outcome {
                         out.log.extend_from_slice(b"ER");
                         if rec.fault_fired.is_some() {
                             dirty = true;
+                            tampered = false;
                         } else {
                             let text: Vec<String> = diags.iter().map(|d| d.printable(state.as_ref().unwrap().db.print_location_fn(false)).to_string()).collect();
                             let after = world::snapshot(&artifact_dir);
                             let fs_error = text.iter().any(|t| t.starts_with("Unable to "));
-                            if !rec.ops.is_empty() && fs_error {
+                            if !rec.ops.is_empty() && fs_error && tampered {
+                                // a real I/O error: the write phase ran into the external damage.
+                                // From here on C19 applies: the next successful compile must
+                                // leave the directory equal to its artifacts
+                                bump(&mut c, "fault.real_io_error_after_external_damage");
+                                out.faults_fired += 1;
+                                fault_since_session_start = true;
+                                dirty = true;
+                                tampered = false;
+                            } else if !rec.ops.is_empty() && fs_error {
                                 // the write phase was entered without an injected fault and failed
                                 let how = sys_kind.map(|k| format!(" under the benign perturbation {}", k.name())).unwrap_or_default();
                                 out.violations.push(Violation { property: "C18", kind: "unfaulted-write-phase-failed", detail: format!("compile failed while writing artifacts{how}: {}", text.first().cloned().unwrap_or_default()), step: idx });
@@ -443,7 +540,16 @@ pub fn generate(seed: u64, with_faults: bool) -> SessionCase {
     let n = rng.range(4, 24);
     let fault_rate = if with_faults { *rng.pick(&[2u64, 4, 7]) } else { 0 };
     for _ in 0..n {
-        match rng.weighted(&[10, 8, 2, 1]) {
+        match rng.weighted(&[10, 8, 2, 1, if with_faults { 2 } else { 0 }]) {
+            4 => {
+                let n = rng.below(6) as u8;
+                steps.push(Step::Tamper(match rng.below(5) {
+                    0 => Tamper::RemoveAll,
+                    1 => Tamper::RemoveEntityDir(n),
+                    2 => Tamper::RemoveSelectableDir(n),
+                    _ => Tamper::RemoveFile(n),
+                }));
+            }
             0 => {
                 let op = if rng.chance(1, 4) { gen_toggle_entrypoint(&cur, &mut rng).unwrap_or_else(|| gen_edit(&mut rng)) } else { gen_edit(&mut rng) };
                 track_edit(&mut cur, &op);
